@@ -122,7 +122,7 @@ fn ref_slice(line: &str, col: u64, span: u64) -> Option<&str> {
 }
 pub fn sourceview() -> Report {
     let maxlen = if crate::deep() { 7 } else { 5 };
-    let bound_s = format!("all texts of length <= {maxlen} over {{a, LF, CR, e-acute, U+1F600}}; 6 access orders per text (single late line first, count first, missing line first, iterator, reverse, forward); all (col, span) in 0..=len+1 per line plus extreme values");
+    let bound_s = format!("all texts of length <= {maxlen} over {{a, LF, CR, e-acute, U+1F600}}; access orders per text: reverse, forward with the count first, missing line first, late line first, every single line then the count, every adjacent pair late one first then the count; the iterator after each; all (col, span) in 0..=len+1 per line plus extreme values");
     let bound = bound_s.as_str();
     let mut cases = 0u64;
     let alpha = ['a', '\n', '\r', 'é', '😀'];
@@ -130,7 +130,8 @@ pub fn sourceview() -> Report {
     for _ in 0..maxlen { let mut next = vec![]; for l in &layer { for c in alpha { let mut t = l.clone(); t.push(c); next.push(t); } } texts.extend(next.iter().cloned()); layer = next; }
     for t in &texts {
         let want = ref_lines(t); let n = want.len() as u32;
-        let orders: Vec<Vec<u32>> = vec![(0..=n).rev().collect(), (0..=n).collect(), vec![n + 3, 0, n.saturating_sub(1)], vec![n.saturating_sub(1), 0, n]];
+        let mut orders: Vec<Vec<u32>> = vec![(0..=n).rev().collect(), (0..=n).collect(), vec![n + 3, 0, n.saturating_sub(1)], vec![n.saturating_sub(1), 0, n]];
+        for i in 0..n { orders.push(vec![i]); if i + 1 < n { orders.push(vec![i + 1, i]); } }   // one line (or two, late one first), then the count
         for (k, ord) in orders.iter().enumerate() {
             cases += 1;
             let sv = SourceView::new(t.as_str().into());
@@ -159,7 +160,7 @@ pub fn sourceview() -> Report {
 
 // ------------------------------------------------------------------ C17
 fn id_start(c: char) -> bool { c == '$' || c == '_' || c.is_ascii_alphabetic() || matches!(c, 'é' | 'λ' | 'ü') }
-fn id_cont(c: char) -> bool { id_start(c) || c.is_ascii_digit() || c == '\u{200c}' || c == '\u{200d}' }
+fn id_cont(c: char) -> bool { id_start(c) || c.is_ascii_digit() || c == '\u{200c}' || c == '\u{200d}' || matches!(c, '\u{301}' | '\u{663}' | '\u{203f}') }   // ID_Continue members used by the programs below
 fn ident(word: &str) -> Option<&str> {
     let mut it = word.char_indices();
     let (_, c0) = it.next()?; if !id_start(c0) { return None; }
@@ -174,7 +175,7 @@ fn text_at(line: &str, col: u32) -> Option<&str> {
     line[off..].split_whitespace().next().and_then(ident)
 }
 pub fn function_name() -> Report {
-    let bound = "7 minified programs (several functions per line, two lines, non-ASCII / astral characters before and inside identifiers, names that are prefixes of one another), tokens every 1 / 2 / 3 / 5 UTF-16 columns plus every word start, and on word starts only (so that `function NAME` token pairs exist) (and past the end; never inside a surrogate pair), names starting with / consisting of '_' and '$', every start token x 22 candidate names; one 140-token line for the 128-token window";
+    let bound = "8 minified programs (several functions per line, two lines, non-ASCII / astral characters before and inside identifiers, names that are prefixes of one another), tokens every 1 / 2 / 3 / 5 UTF-16 columns plus every word start, and on word starts only (so that `function NAME` token pairs exist) (and past the end; never inside a surrogate pair), names starting with / consisting of '_' and '$', identifiers continued by a combining mark / non-ASCII digit / U+203F, every start token x 22 candidate names; one 140-token line for the 128-token window";
     let mut cases = 0u64;
     let programs: Vec<Vec<&str>> = vec![
         vec!["function fn1(){} var é2=function g(){}", "function fn(){}function fn1 (){}"],
@@ -184,8 +185,9 @@ pub fn function_name() -> Report {
         vec!["", "function a(){}"],
         vec!["function é(){} function fé (){}", "var λ=function ü(){}"],
         vec!["function _(){}function _a(){}function a_(){}", "function $(){} function $1(){} function _0x1f(){}"],
+        vec!["function e\u{301}(){} function e(){}", "function k\u{663}(){} function a\u{203f}b(){}"],
     ];
-    let names = ["fn1", "fn", "g", "é2", "λx", "$_", "f\u{200d}g", "function", "1x", "", "h", "a", "é", "fé", "ü", "λ", "_", "_a", "a_", "$", "$1", "_0x1f"];
+    let names = ["fn1", "fn", "g", "é2", "λx", "$_", "f\u{200d}g", "function", "1x", "", "h", "a", "é", "fé", "ü", "λ", "_", "_a", "a_", "$", "$1", "_0x1f", "e\u{301}", "e", "k\u{663}", "k", "a\u{203f}b"];
     for prog in &programs {
         let text = prog.join("\n");
         let sv = SourceView::new(text.as_str().into());
